@@ -105,7 +105,7 @@ def target_geometry(m, ref_pos, placement, rng):
         if pl == "near":
             out[k] = base + rng.uniform(-0.3, 0.3, 3)
         elif pl == "far":
-            out[k] = rng.uniform(-20, 20, 3)
+            out[k] = ref_pos.mean(axis=0) + rng.uniform(-20, 20, 3)
         else:
             out[k] = base if rng.random() < 0.5 else base + rng.uniform(-1e-3, 1e-3, 3)
     return out
@@ -133,8 +133,36 @@ def ref_tgt_case(draw, nref=(3, 25), ntgt=(1, 30), geoms=GEOMS, nres_max=1,
     cls = draw(st.sampled_from(geoms)) if n >= 3 else "generic"
     rng = np.random.default_rng(draw(gen.SEEDS))
     rpos = ref_geometry(n, ref["edges"], cls, rng)
+    special = None
+    if cls == "generic" and n >= 3 and draw(st.integers(0, 5)) == 0:
+        # bonds of a special length: within 1e-7 .. 1e-5 of exactly 1 (the unit of length), or exactly 1
+        special = "unit-bonds"
+        delta = 0.0 if rng.random() < 0.2 else float(rng.choice([-1, 1])) * 10.0 ** rng.uniform(-7, -5)
+        new = rpos.copy()
+        order, seen = [0], {0}
+        nbr = {}
+        for a_, b_ in ref["edges"]:
+            nbr.setdefault(a_, []).append(b_)
+            nbr.setdefault(b_, []).append(a_)
+        while order:
+            u_ = order.pop()
+            for v_ in nbr.get(u_, []):
+                if v_ not in seen:
+                    seen.add(v_)
+                    d_ = rpos[v_] - rpos[u_]
+                    new[v_] = new[u_] + d_ / np.linalg.norm(d_) * (1.0 + delta)
+                    order.append(v_)
+        dm = np.sqrt(((new[:, None] - new[None]) ** 2).sum(-1)) + np.eye(n) * 10
+        if dm.min() >= 1e-2 and gen.min_anchor_sine(new, ref["edges"]) >= 1e-3:
+            rpos = new
+        else:
+            special = None
     if draw(st.integers(0, 3)) == 0 and cls != "near-collinear":   # shift the whole pair to box scale
         rpos = rpos + np.round(rng.uniform(-50, 50, 3) * 8) / 8
+    elif draw(st.integers(0, 5)) == 0 and cls != "near-collinear":
+        # anywhere a coordinate file can place it (-999.999 .. 9999.999 nm)
+        special = (special or "") + "+far"
+        rpos = rpos + np.round(rng.uniform(-900, 9900, 3) * 8) / 8
     placement = draw(st.sampled_from(placements))
     if cls == "near-collinear":
         placement = "near"           # keeps the conditioning of the near-collinear frame inside the tolerance
@@ -146,7 +174,7 @@ def ref_tgt_case(draw, nref=(3, 25), ntgt=(1, 30), geoms=GEOMS, nres_max=1,
         tpos = tpos.astype(np.float32).astype(float)
     elif tdt == "int":
         tpos = np.round(tpos)                # whole numbers of nm
-    return {"geom": cls, "s": draw(scale_factor()), "tgt_dtype": tdt,
+    return {"geom": cls, "s": draw(scale_factor()), "tgt_dtype": tdt, "special": special,
             "late_bond": draw(st.one_of(st.none(), st.none(), st.none(), st.integers(0, 1000))),
             "ref": gen.with_coords(ref, rpos), "tgt": gen.with_coords(tgt, tpos)}
 
